@@ -27,6 +27,13 @@ pub enum Ty {
     },
 }
 
+fn is_zero(x: &u32) -> bool {
+    *x == 0
+}
+fn is_false(x: &bool) -> bool {
+    !*x
+}
+
 #[derive(Deserialize, Serialize, Clone, Debug, PartialEq)]
 #[serde(tag = "k", rename_all = "snake_case")]
 pub enum Io {
@@ -86,6 +93,9 @@ pub enum Node {
         /// the callee returns a value and the call sits inside an expression
         #[serde(default)]
         expr: bool,
+        /// depth of the expression DAG passed as the argument (callees with a parameter only)
+        #[serde(default, skip_serializing_if = "is_zero")]
+        dag: u32,
     },
     /// ctx: plain if_accept if_reject switch_case switch_default loop_body loop_continuing for_body for_update while_body
     Block { ctx: String, items: Vec<Node> },
@@ -96,6 +106,9 @@ pub struct FuncDef {
     pub name: String,
     #[serde(default)]
     pub ret: bool,
+    /// takes one u32 parameter
+    #[serde(default, skip_serializing_if = "is_false")]
+    pub param: bool,
     #[serde(default)]
     pub body: Vec<Node>,
 }
